@@ -16,7 +16,7 @@ For the property's harness groups (harness/<id>/spec.py) it
 Exit 0: every obligation discharged.  Exit 1 + "VIOLATION property=<id> replay=<path>":
 a counterexample that reproduces on the real build.  Exit 2: engine error / inconclusive.
 """
-import sys, os, re, json, time, glob, shutil, subprocess, tempfile, resource, importlib.util, argparse, hashlib, threading
+import sys, os, re, json, time, glob, shutil, subprocess, tempfile, resource, importlib.util, argparse, hashlib, threading, signal
 from concurrent.futures import ThreadPoolExecutor
 
 VERIF = os.path.dirname(os.path.dirname(os.path.abspath(__file__)))
@@ -81,6 +81,10 @@ class Build:
         self.stats = {}
         self.lock = threading.Lock()
 
+    def extra_defs(self):
+        # with leak detection compiled in, /repo itself defines the global operator new/delete
+        return ['-DENV_CUSTOM_NEW'] if self.cfg.get('memleak') else []
+
     def cxx_inputs(self):
         extra = [os.path.join(RT, 'envinstall.cpp'), self.wrapper]
         return repo_sources(self.cfg) + extra
@@ -139,7 +143,7 @@ class Build:
         with self.lock:
           if not os.path.exists(out):
             hobj = os.path.join(self.tmp, 'h_%s.goto' % key)
-            sh(['goto-cc', '-DLL2C_CBMC', '-DLL2C_TRANSLATED', '-I' + RT, '-I' + self.tmp, '-I' + self.hdir] + defines + ['-c', self.harness, '-o', hobj])
+            sh(['goto-cc', '-DLL2C_CBMC', '-DLL2C_TRANSLATED', '-I' + RT, '-I' + self.tmp, '-I' + self.hdir] + self.extra_defs() + defines + ['-c', self.harness, '-o', hobj])
             sh(['goto-cc', os.path.join(self.tmp, 'translated.goto'), hobj, '-o', out + '.tmp'])
             os.rename(out + '.tmp', out)
         return out
@@ -178,7 +182,7 @@ class Build:
           if not os.path.exists(rn):
             ht = os.path.join(self.tmp, 'ht_%s.o' % key)
             hr = os.path.join(self.tmp, 'hr_%s.o' % key)
-            base = ['gcc', '-O1', '-g', '-w', '-c', '-I' + RT, '-I' + self.tmp, '-I' + self.hdir] + self.SAN + defines
+            base = ['gcc', '-O1', '-g', '-w', '-c', '-I' + RT, '-I' + self.tmp, '-I' + self.hdir] + self.SAN + self.extra_defs() + defines
             sh(base + ['-DLL2C_TRANSLATED', self.harness, '-o', ht])
             sh(base + [self.harness, '-o', hr])
             sh(['gcc'] + self.SAN + [self.tobj, ht, self.mobj, '-o', tn, '-lm', '-lstdc++'])
@@ -209,7 +213,10 @@ def parse_cbmc_text(out):
 
 
 def cbmc_cmd(gotobin, ob):
-    cmd = ['cbmc', gotobin, '--function', ob['fn']] + CBMC_FLAGS
+    flags = list(CBMC_FLAGS)
+    if ob.get('object_bits'):
+        flags[flags.index('--object-bits') + 1] = str(ob['object_bits'])
+    cmd = ['cbmc', gotobin, '--function', ob['fn']] + flags
     cmd += ['--unwind', str(ob.get('unwind', 8))]
     if ob.get('unwindset'):
         cmd += ['--unwindset', ','.join(ob['unwindset'])]
@@ -228,13 +235,20 @@ def run_cbmc(build, ob):
     cmd = cbmc_cmd(gotobin, ob)
     t0 = time.time()
     res = {'cmd': ' '.join(cmd[:1] + ['<goto>'] + cmd[2:])}
+    # own process group, so that a timeout kills cbmc itself and not only the /usr/bin/time wrapper
+    proc = subprocess.Popen(['/usr/bin/time', '-f', 'MAXRSS_KB=%M'] + cmd, stdout=subprocess.PIPE, stderr=subprocess.STDOUT,
+                            preexec_fn=limit_mem, start_new_session=True)
     try:
-        p = subprocess.run(['/usr/bin/time', '-f', 'MAXRSS_KB=%M'] + cmd, stdout=subprocess.PIPE, stderr=subprocess.STDOUT,
-                           timeout=ob.get('timeout', 300), preexec_fn=limit_mem)
-        out = p.stdout.decode('utf-8', 'replace')
-        res['rc'] = p.returncode
-    except subprocess.TimeoutExpired as e:
-        out = (e.stdout or b'').decode('utf-8', 'replace')
+        outb, _ = proc.communicate(timeout=ob.get('timeout', 300))
+        out = outb.decode('utf-8', 'replace')
+        res['rc'] = proc.returncode
+    except subprocess.TimeoutExpired:
+        try:
+            os.killpg(proc.pid, 9)
+        except Exception:
+            pass
+        outb, _ = proc.communicate()
+        out = (outb or b'').decode('utf-8', 'replace')
         res['rc'] = 'timeout'
     res['wall_s'] = round(time.time() - t0, 2)
     m = re.search(r'MAXRSS_KB=(\d+)', out)
@@ -246,11 +260,14 @@ def run_cbmc(build, ob):
     return res
 
 
-def extract_inputs(trace, fn):
-    """Inputs of a counterexample: assignments that directly follow a nondet_*() return value."""
+def extract_inputs(trace, fn, harness_file=None):
+    """Inputs of a counterexample: assignments that directly follow a nondet_*() return value.
+    Assignments inside the harness file (the HARNESS function, its _body, static body helpers) are keyed
+    by variable name; those inside environment models by function name and call index."""
     vals = []
     prev_nondet = False
     counters = {}
+    hbase = os.path.basename(harness_file) if harness_file else None
     for st in trace:
         if st.get('stepType') != 'assignment':
             continue
@@ -261,12 +278,14 @@ def extract_inputs(trace, fn):
         if not prev_nondet:
             continue
         prev_nondet = False
-        func = st.get('sourceLocation', {}).get('function', '')
+        loc = st.get('sourceLocation', {})
+        func = loc.get('function', '')
         binv = st.get('value', {}).get('binary')
         if binv is None:
             continue
         v = int(binv, 2)
-        if func == fn:
+        in_harness = func in (fn, fn + '_body') or func.startswith('body') or (hbase and os.path.basename(loc.get('file', '')) == hbase and not func.startswith('env_'))
+        if in_harness:
             m = re.match(r'^([A-Za-z_]\w*)(?:\[(\d+)\w*\])?$', lhs)
             if not m:
                 continue
@@ -282,8 +301,14 @@ def get_trace(build, ob, propname):
     gotobin = build.goto_for(ob.get('defines', []))
     cmd = cbmc_cmd(gotobin, ob) + ['--trace', '--json-ui', '--property', propname]
     try:
-        p = subprocess.run(cmd, stdout=subprocess.PIPE, stderr=subprocess.DEVNULL, timeout=ob.get('timeout', 300) * 2, preexec_fn=limit_mem)
-        d = json.loads(p.stdout.decode('utf-8', 'replace'))
+        proc = subprocess.Popen(cmd, stdout=subprocess.PIPE, stderr=subprocess.DEVNULL, preexec_fn=limit_mem, start_new_session=True)
+        try:
+            outb, _ = proc.communicate(timeout=ob.get('timeout', 300) * 2)
+        except subprocess.TimeoutExpired:
+            os.killpg(proc.pid, 9)
+            proc.communicate()
+            raise
+        d = json.loads(outb.decode('utf-8', 'replace'))
     except Exception as e:
         log('get_trace failed: %r' % (e,))
         return None
@@ -451,7 +476,7 @@ def main():
                     trace = get_trace(b, o, p['name'])
                     if trace is None:
                         continue
-                    vals = extract_inputs(trace, o['fn'])
+                    vals = extract_inputs(trace, o['fn'], b.harness)
                     rdir = os.path.join(VERIF, 'replays', pid)
                     os.makedirs(rdir, exist_ok=True)
                     rpath = os.path.join(rdir, '%s-%s.txt' % (re.sub(r'\W+', '_', oid), re.sub(r'\W+', '_', p['name'])))
